@@ -10,7 +10,7 @@ the role their definition plays, never by name.
 from __future__ import annotations
 
 import ast
-from typing import Dict, List, Optional, Set, Tuple
+from typing import Dict, Iterable, List, Optional, Set, Tuple
 
 from ..cfg import CFG, edges_guaranteeing, reaching_defs, returns_only_through
 from ..engine import (
@@ -589,6 +589,427 @@ def _node_publication(repo: Repo, R: Report, rule: str, qn: str) -> int:
     return found
 
 
+# ---------------------------------------------------------------------------------------------------------
+# D3 (the element's parameter names): which parameters of the wrapped processor the sweep knows about
+# ---------------------------------------------------------------------------------------------------------
+
+PARAM_KINDS = ("POSITIONAL_ONLY", "POSITIONAL_OR_KEYWORD", "VAR_POSITIONAL", "KEYWORD_ONLY", "VAR_KEYWORD")
+KEYWORD_KINDS = ("POSITIONAL_OR_KEYWORD", "KEYWORD_ONLY")  # what `element(**call_params)` can deliver
+RECEIVER_NAMES = {"cls", "self", "data"}  # the receiver and the data argument: never parameters of the element
+_BUILTIN_CONTAINERS = {"set", "frozenset", "dict", "list", "tuple", "sorted"}
+
+
+def _kind_const(e: ast.AST) -> Optional[str]:
+    d = dotted_name(e) if isinstance(e, (ast.Attribute, ast.Name)) else None
+    last = d.split(".")[-1] if d else None
+    return last if last in PARAM_KINDS else None
+
+
+def _const_strings(e: ast.AST) -> Optional[Set[str]]:
+    """The strings of a literal collection of strings (set / tuple / list display, optionally wrapped in set() ...)."""
+    m = kany(["set(_X_)", "frozenset(_X_)", "tuple(_X_)", "list(_X_)"], e)
+    if m:
+        e = m["_X_"]
+    if isinstance(e, (ast.Set, ast.Tuple, ast.List)) and all(isinstance(x, ast.Constant) and isinstance(x.value, str) for x in e.elts):
+        return {x.value for x in e.elts}
+    if isinstance(e, ast.Constant) and isinstance(e.value, str):
+        return {e.value}
+    return None
+
+
+def _tri_not(v: Optional[bool]) -> Optional[bool]:
+    return None if v is None else not v
+
+
+def _tri_all(vs: List[Optional[bool]]) -> Optional[bool]:
+    return False if any(v is False for v in vs) else True if all(v is True for v in vs) else None
+
+
+class _ParamEnv:
+    """One abstract signature parameter: of kind *kind*, not named like the receiver / data argument, not computed by
+    an expression, with (*empty* True) or without a default.  None for a field means unknown."""
+
+    def __init__(self, pname: str, name_alias: Optional[str] = None, kind: Optional[str] = None, empty: Optional[bool] = None, bound_ok=None):
+        self.p, self.alias, self.kind, self.empty, self.bound_ok = pname, name_alias, kind, empty, bound_ok
+
+    def is_name(self, e: ast.AST) -> bool:
+        return kmatch(f"{self.p}.name", e) is not None or (self.alias is not None and isinstance(e, ast.Name) and e.id == self.alias)
+
+    def ev(self, e: ast.AST) -> Optional[bool]:
+        """Three-valued value of test *e* for this parameter."""
+        if isinstance(e, ast.UnaryOp) and isinstance(e.op, ast.Not):
+            return _tri_not(self.ev(e.operand))
+        if isinstance(e, ast.BoolOp):
+            vs = [self.ev(v) for v in e.values]
+            return _tri_all(vs) if isinstance(e.op, ast.And) else _tri_not(_tri_all([_tri_not(v) for v in vs]))
+        if not (isinstance(e, ast.Compare) and len(e.ops) == 1):
+            return None
+        op, l, r = e.ops[0], e.left, e.comparators[0]
+        if isinstance(r, ast.IfExp):  # the same answer whichever operand is chosen
+            vs = {self.ev(ast.Compare(left=l, ops=[op], comparators=[arm])) for arm in (r.body, r.orelse)}
+            return vs.pop() if len(vs) == 1 else None
+        neg = isinstance(op, (ast.NotIn, ast.IsNot, ast.NotEq))
+        out: Optional[bool] = None
+        if isinstance(op, (ast.In, ast.NotIn)):
+            if kmatch(f"{self.p}.kind", l) and isinstance(r, (ast.Tuple, ast.List, ast.Set)) and self.kind is not None:
+                ks = [_kind_const(x) for x in r.elts]
+                out = None if any(k is None for k in ks) else self.kind in ks
+            elif self.is_name(l):
+                names = _const_strings(r)
+                if names is not None and names <= RECEIVER_NAMES:
+                    out = False
+                elif self.bound_ok is not None and self.bound_ok(r):
+                    out = False
+        elif isinstance(op, (ast.Is, ast.IsNot, ast.Eq, ast.NotEq)):
+            for a, b in ((l, r), (r, l)):
+                if kmatch(f"{self.p}.kind", a) and _kind_const(b) is not None and self.kind is not None:
+                    out = self.kind == _kind_const(b)
+                elif self.is_name(a) and isinstance(b, ast.Constant) and b.value in RECEIVER_NAMES and isinstance(op, (ast.Eq, ast.NotEq)):
+                    out = False
+                elif kmatch(f"{self.p}.default", a) and (dotted_name(b) or "").split(".")[-1] in ("empty", "_empty") and self.empty is not None:
+                    out = self.empty
+        return _tri_not(out) if neg else out
+
+    def ev_at(self, F: "Flow", e: ast.AST, at: int) -> Optional[bool]:
+        v = self.ev(e)
+        if v is not None:
+            return v
+        try:
+            vs = {self.ev(x) for x in F.expand(e, at)}
+        except AnalysisError:
+            return None
+        return vs.pop() if len(vs) == 1 else None
+
+    def decided_edges(self, F: "Flow", inside: Set[int]) -> Tuple[Set[Tuple[int, str]], List[Tuple[int, bool]]]:
+        """Branch edges (of tests inside *inside*) that this parameter cannot take, and the tests that were decided."""
+        be: Set[Tuple[int, str]] = set()
+        decided: List[Tuple[int, bool]] = []
+        for n in F.g.nodes:
+            if n.id in inside and n.kind in ("if", "while") and n.part is not None:
+                v = self.ev_at(F, n.part, n.id)
+                if v is not None:
+                    be.add((n.id, "F" if v else "T"))
+                    decided.append((n.id, v))
+        return be, decided
+
+
+def _loop_nodes(F: "Flow", lp: ast.For) -> Set[int]:
+    return {nid for x in ast.walk(lp) if isinstance(x, ast.stmt) for nid in F.g.nodes_for(x)}
+
+
+def _split_ifexp(e: ast.AST, conds: Tuple = ()) -> List[Tuple[ast.AST, Tuple]]:
+    """Alternatives of an expression that contains conditional expressions anywhere, with the (test, 'T'|'F')
+    choices leading to each."""
+    idx = next((i for i, x in enumerate(ast.walk(e)) if isinstance(x, ast.IfExp)), None)
+    if idx is None:
+        return [(e, conds)]
+    out: List[Tuple[ast.AST, Tuple]] = []
+    for lab in ("T", "F"):
+        c = clone(e)
+        target = list(ast.walk(c))[idx]
+        arm = target.body if lab == "T" else target.orelse
+
+        class T(ast.NodeTransformer):
+            def visit_IfExp(self, n):
+                return arm if n is target else self.generic_visit(n)
+
+        out += _split_ifexp(T().visit(c), conds + ((target.test, lab),))
+    return out
+
+
+def _fold_tuple_index(e: ast.AST) -> ast.AST:
+    """`(a, b)[1]` is `b` (what a tuple-unpacking assignment of a returned pair binds)."""
+    class T(ast.NodeTransformer):
+        def visit_Subscript(self, n):
+            self.generic_visit(n)
+            if isinstance(n.value, (ast.Tuple, ast.List)) and isinstance(n.slice, ast.Constant) and isinstance(n.slice.value, int) \
+                    and not any(isinstance(x, ast.Starred) for x in n.value.elts) and -len(n.value.elts) <= n.slice.value < len(n.value.elts):
+                return n.value.elts[n.slice.value]
+            return n
+    return T().visit(e) if any(isinstance(x, ast.Subscript) for x in ast.walk(e)) else e
+
+
+def _plain(text: str) -> str:
+    """Text of a normal-form construct without the inliner's `_i<N>_` prefixes of helper locals."""
+    import re
+    return re.sub(r"\b_i\d+_", "", text)
+
+
+def _function_at(repo: Repo, rel: str, line: int, default: str) -> str:
+    """Qualified name of the innermost function of module *rel* that contains *line*."""
+    best: Optional[ast.AST] = None
+    for n in ast.walk(repo.module(rel).tree):
+        if isinstance(n, FuncNode) and n.lineno <= line <= (getattr(n, "end_lineno", None) or n.lineno):
+            if best is None or n.lineno >= best.lineno:
+                best = n
+    return qualname_of(best) if best is not None else default
+
+
+def _element_parameters(repo: Repo, R: Report) -> None:
+    """The names the sweep treats as parameters of the wrapped processor - the set `call_params` is filtered to
+    (`S._allowed_names`) and the names whose provided values are selected (`base_kwargs_filter`) - decided on the
+    normal form of the factory (helpers inlined) with value expansion and the CFG:
+      (a) they are selected from the signature of the method the sweep really calls (source: _get_data, operation /
+          probe: _process_logic);
+      (b) a parameter is selected exactly when it can be passed by keyword (POSITIONAL_OR_KEYWORD, KEYWORD_ONLY); the
+          only names left out are the receiver and the data argument;
+      (c) every class' `_allowed_names` is the set of names of that selection;
+      (d) every selected parameter that is not computed by an expression is among the names whose provided (node /
+          context) value is handed to the element."""
+    rule = R.rule("C03-D3-element-parameters", "the parameter names the sweep filters call_params to and selects provided values for are exactly the keyword-passable parameters (POSITIONAL_OR_KEYWORD and KEYWORD_ONLY) of the method the sweep calls (_get_data / _process_logic), minus the receiver and the data argument; every one of them that is not computed by an expression is looked up in the provided parameters and declared by the generated signature", 12)
+    raw = repo.func(SWEEP, CREATE)
+    F = Flow(nfunc(repo, SWEEP, CREATE, keep=("_build_signature",), copyprop="all"), post=_fold_tuple_index)
+    g = F.g
+    exits = {g.ret_exit, g.exc_exit, g.base_exit}
+    cache: Dict[str, bool] = {}
+
+    def a_source(e: ast.AST) -> Optional[bool]:
+        if kmatch("element_kind == 'DataSource'", e) or kmatch("'DataSource' == element_kind", e):
+            return True
+        if kmatch("element_kind != 'DataSource'", e) or kmatch("'DataSource' != element_kind", e):
+            return False
+        return None
+
+    def a_other(e: ast.AST) -> Optional[bool]:
+        return _tri_not(a_source(e))
+
+    E_src, E_oth = F.edges(a_source), F.edges(a_other)
+    if not E_src or not E_oth:
+        raise AnalysisError("create: the branches on element_kind == 'DataSource' were not found")
+    # the two kinds of wrapped method: (label, impossible branch edges, the atom that excludes an arm, method)
+    SCEN = (("source", frozenset(E_oth), a_other, "_get_data"), ("operation / probe", frozenset(E_src), a_source, "_process_logic"))
+
+    def signature_ok(it: ast.AST, at: int, line: int, scen) -> None:
+        """*it* (evaluated at node *at*) iterates the parameters of the signature of the method the sweep calls."""
+        label, be, anti, meth = scen
+        leaves: List[ast.AST] = []
+        for x in F.expand(it, at, be):
+            for leaf, conds in _split_ifexp(x):
+                if any(lab in _edges(t, anti) for t, lab in conds):
+                    continue  # an arm taken for the other kind of element only
+                leaves.append(leaf)
+        pats = [f"{pre}signature(element.{meth}).parameters.{acc}()" for pre in ("inspect.", "") for acc in ("values", "items")]
+        bad = [x for x in leaves if kany(pats, x) is None]
+        R.check(bool(leaves) and not bad, rule, SWEEP, CREATE, f"{label}: parameters are read from inspect.signature(element.{meth})", f"`{_u(bad[0])[:100]}`: the parameter names of a {label} sweep are not taken from the signature of the method the sweep calls (element.{meth})" if bad else f"no signature found for a {label} sweep", line)
+
+    def selection_ok(L: ast.AST, at: int, scen, elt_name: bool = False) -> bool:
+        """*L* (an expression expanded for one kind of element) is the selection of the keyword-passable parameters;
+        reports what is wrong with it."""
+        key = ast.dump(L) + str(elt_name) + scen[0]
+        if key in cache:
+            return cache[key]
+        cache[key] = True
+        line = raw.lineno
+        m = kany(["list(_X_)", "tuple(_X_)"], L)
+        if m and isinstance(m["_X_"], (ast.ListComp, ast.GeneratorExp)):
+            L = m["_X_"]
+        if isinstance(L, ast.Name) and L.id.startswith("__mutated_") and not elt_name:
+            lst = L.id[len("__mutated_"):-2]
+            sites = [s for s, _r in mutation_sites(F.fn, {lst})]
+            loops = {id(a): a for s in sites for a in ancestors(s) if isinstance(a, ast.For)}
+            lp = next((a for a in loops.values() if all(any(b is a for b in ancestors(s)) for s in sites)), None)
+            inits = [F._def_value(lst, dn) for dn in (F.rdefs(lst, F.nid(lp))[0] if lp is not None else [])]
+            if lp is None or not inits or not all(v is not None and kany(["[]", "list()"], v) is not None for v in inits):
+                raise AnalysisError(f"create: the loop that fills `{lst}` from the element's signature was not found")
+            line = lp.lineno
+            t = lp.target
+            alias = None
+            its = F.expand(lp.iter, F.nid(lp))
+            if isinstance(t, ast.Name):
+                ms_ = [kmatch("_SIG_.parameters.values()", x) for x in its]
+                P = t.id
+            elif isinstance(t, ast.Tuple) and len(t.elts) == 2 and all(isinstance(x, ast.Name) for x in t.elts):
+                ms_ = [kmatch("_SIG_.parameters.items()", x) for x in its]
+                alias, P = t.elts[0].id, t.elts[1].id
+            else:
+                ms_ = []
+            if not ms_ or any(m_ is None for m_ in ms_):
+                raise AnalysisError(f"create: `{_u(lp.iter)[:80]}` is not an iteration over <signature>.parameters")
+            signature_ok(lp.iter, F.nid(lp), line, scen)
+            good_sites = [s for s in sites if kmatch(f"{lst}.append({P})", s) is not None]
+            R.check(len(good_sites) == len(sites), rule, SWEEP, CREATE, "the selected parameters are the signature's own Parameter objects", f"`{_u(next(s for s in sites if s not in good_sites))[:100]}` puts something other than the signature's parameter into the selection" if len(good_sites) != len(sites) else "", line)
+            inside = _loop_nodes(F, lp)
+            c_nodes = {F.nid(s) for s in good_sites}
+            body_start = [t_ for t_, l_ in g.succ[F.nid(lp)] if l_ == "T"]
+            for kind in PARAM_KINDS:
+                env = _ParamEnv(P, alias, kind)
+                be, decided = env.decided_edges(F, inside)
+                kind_tests = [g.nodes[i] for i, _v in decided if f"{P}.kind" in _u(g.nodes[i].part)]
+                where = kind_tests[0] if kind_tests else None
+                if kind in KEYWORD_KINDS:
+                    seen = _reach(g, body_start, c_nodes, be)
+                    bad = [x for x in [F.nid(lp)] + sorted(exits) if x in seen]
+                    R.check(bool(body_start) and not bad, rule, SWEEP, _function_at(repo, SWEEP, where.line if where is not None else line, CREATE), f"a {kind} parameter of the element is selected", f"`{_plain(where.text() if where is not None else _u(lp)[:80])}`: a {kind} parameter of the wrapped processor is left out of the element's parameter names - its non-swept value given in the node parameters / context is never passed on and every element is computed with the processor's default instead", where.line if where is not None else line, g.path_to(seen, bad[0]) if bad else [])
+                else:
+                    seen = _reach(g, body_start, None, be)
+                    bad = [x for x in sorted(c_nodes) if x in seen]
+                    R.check(not bad, rule, SWEEP, _function_at(repo, SWEEP, where.line if where is not None else line, CREATE), f"a {kind} parameter of the element is not selected", f"`{_plain(where.text() if where is not None else _u(lp)[:80])}`: a {kind} parameter (which `element(**call_params)` cannot deliver by name) is treated as a parameter of the wrapped processor", where.line if where is not None else line, g.path_to(seen, bad[0]) if bad else [])
+            return True
+        if isinstance(L, (ast.ListComp, ast.GeneratorExp, ast.SetComp)) and len(L.generators) == 1 and isinstance(L.generators[0].target, ast.Name):
+            gen = L.generators[0]
+            P = gen.target.id
+            where = None
+            line = getattr(L, "lineno", None) or raw.lineno
+            m = kmatch("_SIG_.parameters.values()", gen.iter)
+            if not m:
+                raise AnalysisError(f"create: `{_u(gen.iter)[:80]}` is not an iteration over <signature>.parameters")
+            signature_ok(gen.iter, at, line, scen)
+            want = f"{P}.name" if elt_name else P
+            R.check(_u(L.elt) == want, rule, SWEEP, CREATE, "the selected parameters are the signature's own Parameter objects", f"`{_plain(_u(L))[:100]}` selects something other than the signature's parameters", line)
+            for kind in PARAM_KINDS:
+                env = _ParamEnv(P, None, kind)
+                v = _tri_all([env.ev(c) for c in gen.ifs])
+                if kind in KEYWORD_KINDS:
+                    R.check(v is True, rule, SWEEP, _function_at(repo, SWEEP, where.line if where is not None else line, CREATE), f"a {kind} parameter of the element is selected", f"`{_plain(_u(L))[:120]}`: a {kind} parameter of the wrapped processor is left out of the element's parameter names - its non-swept value given in the node parameters / context is never passed on and every element is computed with the processor's default instead", line)
+                else:
+                    R.check(v is False, rule, SWEEP, _function_at(repo, SWEEP, where.line if where is not None else line, CREATE), f"a {kind} parameter of the element is not selected", f"`{_plain(_u(L))[:120]}`: a {kind} parameter (which `element(**call_params)` cannot deliver by name) is treated as a parameter of the wrapped processor", line)
+            return True
+        cache[key] = False
+        return False
+
+    # (c) S._allowed_names of every generated class
+    classes = [c for c in ast.walk(F.fn) if isinstance(c, ast.ClassDef) and any(isinstance(st, ast.Assign) and any(isinstance(t, ast.Name) and t.id == "_allowed_names" for t in st.targets) for st in c.body)]
+    if len(classes) != 3:
+        raise AnalysisError(f"{len(classes)} generated classes assign _allowed_names (3 confirmed by reading)")
+    for c in classes:
+        st = next(st for st in c.body if isinstance(st, ast.Assign) and any(isinstance(t, ast.Name) and t.id == "_allowed_names" for t in st.targets))
+        ids = g.nodes_for(c)
+        if not ids:
+            raise AnalysisError(f"create: no CFG node for class {c.name}")
+        ok, n_live = True, 0
+        for scen in SCEN:
+            if ids[0] not in F.reachable(scen[1]):
+                continue  # this class is not built for that kind of element
+            n_live += 1
+            xs = F.expand(st.value, ids[0], scen[1])
+            ok = ok and bool(xs)
+            for x in xs:
+                m = kany(["{_q_.name for _q_ in _L_}", "set((_q_.name for _q_ in _L_))", "set([_q_.name for _q_ in _L_])", "frozenset((_q_.name for _q_ in _L_))", "frozenset({_q_.name for _q_ in _L_})"], x)
+                if m and selection_ok(m["_L_"], ids[0], scen):
+                    continue
+                inner = kany(["set(_X_)", "frozenset(_X_)"], x)
+                if selection_ok(inner["_X_"] if inner else x, ids[0], scen, elt_name=True):
+                    continue
+                ok = False
+        R.check(ok and n_live > 0, rule, SWEEP, f"{CREATE}.{c.name}", "_allowed_names = the names of the selected parameters", f"`{_u(st)}`: the names call_params are filtered to are not the names of the element's keyword-passable parameters", getattr(st, "lineno", raw.lineno))
+
+    # (d) the names whose provided values are selected
+    bfs: Set[str] = set()
+    for qn, f in variant_bodies(repo):
+        for comp in ast.walk(f):
+            if isinstance(comp, ast.DictComp) and len(comp.generators) == 1 and isinstance(comp.generators[0].iter, ast.Name):
+                kw = f.args.kwarg.arg if f.args.kwarg else "kwargs"
+                if kmatch(f"{{_n_: {kw}[_n_] for _n_ in _BF_ if _ANY_}}", comp):
+                    bfs.add(comp.generators[0].iter.id)
+    if len(bfs) != 1:
+        raise AnalysisError(f"create: the name set the provided kwargs are selected by was not found once ({sorted(bfs)})")
+    bf = bfs.pop()
+    bf_nodes = F.defnodes.get(bf, [])
+    if len(bf_nodes) != 1:
+        raise AnalysisError(f"create: `{bf}` is not defined exactly once")
+    bf_val = F._def_value(bf, bf_nodes[0])
+
+    def components(e: ast.AST) -> Optional[List[ast.AST]]:
+        """The collections whose union *e* is."""
+        if isinstance(e, ast.BinOp) and isinstance(e.op, ast.BitOr):
+            l, r = components(e.left), components(e.right)
+            return None if l is None or r is None else l + r
+        m = kany(["_A_.union(_B_)"], e)
+        if m:
+            l, r = components(m["_A_"]), components(m["_B_"])
+            return None if l is None or r is None else l + r
+        m = kany(["set(_X_)", "frozenset(_X_)", "list(_X_)", "tuple(_X_)", "_X_.keys()"], e)
+        if m:
+            return components(m["_X_"])
+        if kany(["set()", "frozenset()", "list()", "tuple()", "[]", "()"], e) is not None:
+            return []
+        if isinstance(e, ast.Set) and e.elts and all(isinstance(x, ast.Starred) for x in e.elts):
+            out: List[ast.AST] = []
+            for x in e.elts:
+                c_ = components(x.value)
+                if c_ is None:
+                    return None
+                out += c_
+            return out
+        if isinstance(e, (ast.Name, ast.ListComp, ast.SetComp, ast.DictComp, ast.GeneratorExp)):
+            return [e]
+        return None
+
+    def bound_ok(e: ast.AST) -> bool:
+        """*e* is the set of names computed by expressions (built from the factory's parametric_expressions only)."""
+        try:
+            xs = F.expand(e, bf_nodes[0]) if any(isinstance(x, ast.Name) and x.id in F.defnodes for x in ast.walk(e)) else [e]
+        except AnalysisError:
+            return False
+        ok_names = {"parametric_expressions"} | _BUILTIN_CONTAINERS
+        return bool(xs) and all({n.id for n in ast.walk(x) if isinstance(n, ast.Name)} <= ok_names and any(isinstance(n, ast.Name) and n.id == "parametric_expressions" for n in ast.walk(x)) for x in xs)
+
+    line = getattr(g.nodes[bf_nodes[0]].ast, "lineno", raw.lineno)
+    bf_dumps: Set[str] = set()
+    for scen in SCEN:
+        comps: List[ast.AST] = []
+        for x in (F.expand(bf_val, bf_nodes[0], scen[1]) if bf_val is not None else []):
+            c_ = components(x)
+            if c_ is None:
+                raise AnalysisError(f"create: `{bf} = {_u(x)[:100]}` is not a union of name collections")
+            comps += c_
+        if not comps:
+            raise AnalysisError(f"create: definition of `{bf}` not understood")
+        bf_dumps |= {ast.dump(c_) for c_ in comps}
+        containers = [c_.id[len("__mutated_"):-2] for c_ in comps if isinstance(c_, ast.Name) and c_.id.startswith("__mutated_")]
+        others = [c_ for c_ in comps if not (isinstance(c_, ast.Name) and c_.id.startswith("__mutated_"))]
+        if containers and not others:
+            sites = [s for s, _r in mutation_sites(F.fn, set(containers))]
+            lp = next((a for s in sites for a in ancestors(s) if isinstance(a, ast.For) and isinstance(a.target, ast.Name)), None)
+            if lp is None:
+                raise AnalysisError(f"create: the loop that sorts the element's parameters into {containers} was not found")
+            P = lp.target.id
+            its = F.expand(lp.iter, F.nid(lp), scen[1])
+            ok = bool(its) and all(selection_ok(x, F.nid(lp), scen) for x in its)
+            R.check(ok, rule, SWEEP, CREATE, "the provided-parameter names are sorted out of the selected parameters", f"`{_u(lp)[:80]}`: the names whose provided values are handed to the element are not taken from the element's selected parameters", lp.lineno)
+            good = [s for s in sites if any(a is lp for a in ancestors(s)) and any(kany([f"{c_}.append({P}.name)", f"{c_}.add({P}.name)", f"{c_}.setdefault({P}.name, _ANY_)"], s) is not None for c_ in containers)
+                    or (isinstance(s, (ast.Assign, ast.AnnAssign)) and any(a is lp for a in ancestors(s)) and any(kmatch(f"{c_}[{P}.name]", t) is not None for c_ in containers for t in (s.targets if isinstance(s, ast.Assign) else [s.target])))]
+            inside = _loop_nodes(F, lp)
+            env = _ParamEnv(P, None, None, None, bound_ok)
+            be, _dec = env.decided_edges(F, inside)
+            body_start = [t_ for t_, l_ in g.succ[F.nid(lp)] if l_ == "T"]
+            seen = _reach(g, body_start, {F.nid(s) for s in good}, be)
+            bad = [x for x in [F.nid(lp)] + sorted(exits) if x in seen]
+            R.check(bool(good) and bool(body_start) and not bad, rule, SWEEP, CREATE, "every selected parameter that no expression computes is recorded as a required or optional external parameter", f"a parameter of the wrapped processor that no expression computes is left out of `{bf}`: its value given in the node parameters / context is not handed to the element and the processor's default is used", lp.lineno, g.path_to(seen, bad[0]) if bad else [])
+        elif others and not containers:
+            for empty in (True, False):
+                hit = False
+                for c_ in others:
+                    if not (isinstance(c_, (ast.ListComp, ast.SetComp, ast.DictComp, ast.GeneratorExp)) and len(c_.generators) == 1 and isinstance(c_.generators[0].target, ast.Name)):
+                        raise AnalysisError(f"create: component `{_u(c_)[:80]}` of `{bf}` not understood")
+                    gen = c_.generators[0]
+                    P = gen.target.id
+                    elt = c_.key if isinstance(c_, ast.DictComp) else c_.elt
+                    env = _ParamEnv(P, None, None, empty, bound_ok)
+                    if _u(elt) == f"{P}.name" and selection_ok(gen.iter, bf_nodes[0], scen) and _tri_all([env.ev(t) for t in gen.ifs]) is True:
+                        hit = True
+                R.check(hit, rule, SWEEP, CREATE, f"every selected parameter {'without' if empty else 'with'} a default that no expression computes is among the provided-parameter names", f"`{bf} = {_u(bf_val)[:100]}`: a parameter of the wrapped processor {'without' if empty else 'with'} a default that no expression computes is left out: its value given in the node parameters / context is not handed to the element", line)
+        else:
+            raise AnalysisError(f"create: `{bf}` mixes filled containers and comprehensions (shape not analysed)")
+
+    # (e) the same names are declared by the generated method's signature (that is where the node learns which
+    #     parameters to fetch from its configuration / the context)
+    sig_calls = [c for c in walk_no_nested(F.fn) if isinstance(c, ast.Call) and call_name(c) == "_build_signature"]
+    if len(sig_calls) != 3:
+        raise AnalysisError(f"create: {len(sig_calls)} calls of _build_signature (3 confirmed by reading)")
+    for c in sig_calls:
+        req, opt = kwarg(c, "required_parameters"), kwarg(c, "optional_parameters")
+        dumps: Optional[Set[str]] = set()
+        for e_ in (req, opt):
+            for x in (F.expand(e_, F.nid(c)) if e_ is not None else [None]):
+                c_ = components(x) if x is not None else None
+                if c_ is None or dumps is None:
+                    dumps = None
+                else:
+                    dumps |= {ast.dump(y) for y in c_}
+        R.check(dumps is not None and dumps == bf_dumps, rule, SWEEP, CREATE, "the generated signature declares the required and optional external parameters", f"`{_u(c)[:140]}`: the parameters declared by the generated signature are not the ones whose provided values are handed to the element (`{bf}`): the node does not fetch a declared-away parameter and the processor's default is used", c.lineno)
+
+
 def run(repo: Repo, R: Report) -> None:
     R.assume(
         "itertools.product varies the rightmost sequence fastest; numpy.linspace/logspace return the documented values for their arguments",
@@ -898,6 +1319,7 @@ def run(repo: Repo, R: Report) -> None:
     for key in ("materialise", "pop", "base_kwargs", "iterate", "params"):
         vals = {forms[n][key] for n in names}
         R.check(len(vals) == 1, r_v, SWEEP, CREATE, f"variants agree on step `{key}`", f"the generated source / operation / probe bodies differ in `{key}`", 0)
+    _element_parameters(repo, R)
 
     # ------------------------------------------------------------------ D4
     r_p = R.rule("C03-D4-publication", "every variant declares <var>_values for each variable, materialisation stores exactly those keys, each variant hands them to the run context (or leaves them for the node), and the probe node publishes and declares them", 9)
